@@ -397,4 +397,226 @@ def pyDataclass (fs : List Field) (a1 : List Val) (k1 : List (String × Val)) (a
     (k2 : List (String × Val)) : Except PyErr Val :=
   pyCall2 (dcSig fs) (fun vs => Val.dc ((fs.map (·.name)).zip vs)) a1 k1 a2 k2
 
+/-! ## The definition layer: signature and return statement ↦ class-level preview ↦ instance IO
+
+Transcribes `ScrapesIO._build_inputs_preview / _build_outputs_preview / _validate*`
+(mixin/preview.py), `ParseOutput.get_parsed_output` (output_parser.py), `Function._build_outputs_preview`
+(nodes/function.py) and `StaticNode._setup_node` (nodes/static_io.py).
+
+What python's `inspect` / `ast` do with the *text* of the definition is an input of this layer: the
+model is handed the parameter list (name, annotation, default), the list of `return` statements that
+`ast.walk` finds, each either bare or carrying an expression that is an `ast.Tuple` of element texts or
+one other expression text, and the evaluated return annotation with its `typing.get_args`. -/
+
+/-- a type hint, printed; `none` = no hint -/
+abbrev Hint := Option String
+
+/-- an annotation as `inspect.signature(..., eval_str=True)` reports it -/
+inductive Ann where
+  | empty                 -- `inspect.Parameter.empty`
+  | none_                 -- the object `None`
+  | obj (h : String)      -- any other object, printed
+  deriving Repr, DecidableEq
+
+/-- `None` is replaced by `type(None)`, no annotation means no hint -/
+def Ann.hint : Ann → Hint
+  | .empty => none
+  | .none_ => some "builtins.NoneType"
+  | .obj h => some h
+
+structure FParam where
+  name : String
+  ann : Ann
+  dflt : Option Val
+  deriving Repr
+
+/-- `inspect.signature(cls.__init__).parameters.keys()` of a node class -/
+def initKeywords : List String :=
+  ["self", "args", "label", "parent", "delete_existing_savefiles", "autoload", "autorun", "checkpoint", "kwargs"]
+
+inductive DefErr where
+  | reservedName      -- ValueError: argument name conflicts with `__init__`
+  | multipleReturns   -- ValueError of `ParseOutput.node_return`
+  | degenerate        -- ValueError of `_validate_degeneracy`
+  | countMismatch     -- ValueError of `_validate_return_count`
+  | presence          -- TypeError of `_validate_return_count` (labels without returned values)
+  | hintCount         -- ValueError: number of tuple hints ≠ number of labels
+  deriving Repr, DecidableEq
+
+/-- one entry of `preview_inputs()`: label ↦ (hint, default) -/
+structure InPrev where
+  label : String
+  hint : Hint
+  dflt : Val
+  deriving Repr
+
+/-- `ScrapesIO._build_inputs_preview` (function nodes: `_io_defining_function_uses_self = False`) -/
+def previewInputs : List FParam → Except DefErr (List InPrev)
+  | [] => .ok []
+  | p :: ps =>
+    if initKeywords.contains p.name then .error .reservedName
+    else (previewInputs ps).map fun r => { label := p.name, hint := p.ann.hint, dflt := p.dflt.getD .nd } :: r
+
+/-- the expression of a `return` statement as `ParseOutput` distinguishes it -/
+inductive RetExpr where
+  | tuple (elts : List String)   -- `ast.Tuple`: the source texts of its elements
+  | single (src : String)        -- any other expression: its source text
+  deriving Repr
+
+inductive RetStmt where
+  | bare                          -- `return`
+  | value (e : RetExpr)           -- `return <e>`
+  deriving Repr
+
+/-- `ParseOutput(fn).output`: more than one `return` anywhere in the source is refused; no return, a bare
+return and `return None` give `None`; a tuple gives its element texts; anything else its own text -/
+def parseOutput : List RetStmt → Except DefErr (Option (List String))
+  | [] => .ok none
+  | [.bare] => .ok none
+  | [.value (.tuple es)] => .ok (some es)
+  | [.value (.single s)] => .ok (if s = "None" then none else some [s])
+  | _ :: _ :: _ => .error .multipleReturns
+
+/-- the return annotation as `inspect.signature` reports it, with `typing.get_args` of the object -/
+inductive RetAnn where
+  | empty
+  | none_
+  | obj (h : String) (args : List String)
+  deriving Repr
+
+structure FnDef where
+  params : List FParam
+  rets : List RetStmt
+  declared : Option (List String)   -- `*output_labels` (`None` when there are none)
+  validate : Bool
+  retAnn : RetAnn
+  deriving Repr
+
+/-- `_get_output_labels`: the declared labels, else the scraped ones -/
+def getOutputLabels (d : FnDef) : Except DefErr (Option (List String)) :=
+  match d.declared with
+  | some ls => .ok (some ls)
+  | none => parseOutput d.rets
+
+def hasDup : List String → Bool
+  | [] => false
+  | x :: r => r.contains x || hasDup r
+
+/-- `_validate()` = `_validate_degeneracy(); _validate_return_count()` (the source is available, so the
+`OSError` escape is never taken) -/
+def validateLabels (d : FnDef) : Except DefErr Unit :=
+  match getOutputLabels d with
+  | .error e => .error e
+  | .ok labels =>
+    if (match labels with | some ls => hasDup ls | none => false) then .error .degenerate
+    else
+      match parseOutput d.rets with
+      | .error e => .error e
+      | .ok scraped =>
+        match labels, scraped with
+        | none, none => .ok ()
+        | some ls, some rs => if ls.length = rs.length then .ok () else .error .countMismatch
+        | _, _ => .error .presence
+
+/-- the hints zipped onto the labels by `_build_outputs_preview` -/
+def outHints (ra : RetAnn) (nlabels : Nat) : Except DefErr (List Hint) :=
+  match ra with
+  | .empty => .ok (List.replicate nlabels none)
+  | .none_ =>
+    if nlabels > 1 then .error .hintCount      -- `get_args(NoneType) = ()`
+    else .ok [some "builtins.NoneType"]
+  | .obj h args =>
+    if nlabels > 1 then (if args.length = nlabels then .ok (args.map some) else .error .hintCount)
+    else .ok [some h]
+
+/-- `zip(labels, hints, strict=False)` -/
+def zipLH : List String → List Hint → List (String × Hint)
+  | l :: ls, h :: hs => (l, h) :: zipLH ls hs
+  | _, _ => []
+
+/-- `dict(pairs)`: a repeated key keeps its first position and takes the later value -/
+def dictInsert (acc : List (String × Hint)) (kv : String × Hint) : List (String × Hint) :=
+  if acc.any (fun p => p.1 == kv.1) then acc.map (fun p => if p.1 = kv.1 then (p.1, kv.2) else p)
+  else acc ++ [kv]
+
+def asDict' (l : List (String × Hint)) : List (String × Hint) := l.foldl dictInsert []
+
+/-- `Function._build_outputs_preview`: validation (if switched on), labels, hints, `dict(zip(…))`; a
+function without a returned value gets the single output `None` hinted `NoneType` -/
+def previewOutputs (d : FnDef) : Except DefErr (List (String × Hint)) :=
+  match (if d.validate then validateLabels d else .ok ()) with
+  | .error e => .error e
+  | .ok () =>
+    match getOutputLabels d with
+    | .error e => .error e
+    | .ok labels =>
+      let ls := labels.getD []
+      match outHints d.retAnn ls.length with
+      | .error e => .error e
+      | .ok hs =>
+        let pre := asDict' (zipLH ls hs)
+        .ok (if pre.isEmpty then [("None", some "builtins.NoneType")] else pre)
+
+/-- `Class.preview_io()` of a function node class; the decorators call it while the class is being
+defined, so an error here means there is no node class -/
+def fnPreview (d : FnDef) : Except DefErr (List InPrev × List (String × Hint)) :=
+  match previewInputs d.params with
+  | .error e => .error e
+  | .ok pin =>
+    match previewOutputs d with
+    | .error e => .error e
+    | .ok pout => .ok (pin, pout)
+
+/-- a data channel of an instance -/
+structure Chan where
+  label : String
+  hint : Hint
+  dflt : Val
+  value : Val
+  deriving Repr
+
+/-- `StaticNode._setup_node`: one `InputData(label, default, type_hint)` per entry of `preview_inputs()`
+(its value starts as the default), one output per entry of `preview_outputs()` (value `NOT_DATA`) -/
+def setupIns (pin : List InPrev) : List Chan :=
+  pin.map fun p => { label := p.label, hint := p.hint, dflt := p.dflt, value := p.dflt }
+
+def setupOuts (pout : List (String × Hint)) : List Chan :=
+  pout.map fun o => { label := o.1, hint := o.2, dflt := .nd, value := .nd }
+
+/-- the value view of the channels (what the run-time part of the model works on) -/
+def chanPanel (cs : List Chan) : Panel := cs.map fun c => (c.label, c.value)
+
+def setupNode (pin : List InPrev) (pout : List (String × Hint)) : Node :=
+  { ins := chanPanel (setupIns pin), outs := chanPanel (setupOuts pout) }
+
+/-- the signature of the definition as the run-time part sees it -/
+def FnDef.sig (d : FnDef) : Sig := d.params.map fun p => { name := p.name, dflt := p.dflt }
+
+/-- how many objects the (single) return statement returns -/
+def retCount : List RetStmt → Nat
+  | [.value (.tuple es)] => es.length
+  | [.value (.single s)] => if s = "None" then 0 else 1
+  | _ => 0
+
+/-! ### the class-level previews of the transformers -/
+
+def xfInPreview (ls : List String) (h : Hint) : List InPrev := ls.map fun l => { label := l, hint := h, dflt := .nd }
+
+def listPreview (n : Nat) : List InPrev × List (String × Hint) :=
+  (xfInPreview (itemLabels "item_" n) none, [("list", some "builtins.list")])
+def dfPreview (n : Nat) : List InPrev × List (String × Hint) :=
+  (xfInPreview (itemLabels "row_" n) (some "builtins.dict"), [("df", some "pandas.core.frame.DataFrame")])
+def unpackPreview (n : Nat) : List InPrev × List (String × Hint) :=
+  (xfInPreview ["list"] (some "builtins.list"), (itemLabels "item_" n).map fun l => (l, none))
+/-- `inputs_to_dict(spec)`: the specification *is* the input preview, key ↦ (hint, default); a plain
+list of keys stands for (no hint, `NOT_DATA`) each -/
+def dictPreview (spec : List InPrev) : List InPrev × List (String × Hint) :=
+  (spec, [("dict", some "builtins.dict")])
+/-- dataclass node: one input per field, hinted with the field's type, defaulting to the field's plain
+default (a `default_factory` is applied to instances only); the output is hinted with the class -/
+def dcInPreview : List Field → List Hint → List InPrev
+  | f :: fs, h :: hs =>
+    { label := f.name, hint := h, dflt := match f.dflt with | .value v => v | _ => .nd } :: dcInPreview fs hs
+  | _, _ => []
+
 end PwVerif.FuncWrap
